@@ -1838,6 +1838,11 @@ func (ctx *RenderContext) ToString(val interface{}) string {
 		return ""
 	}
 
+	// A nil pointer has no value to print (and calling a value-receiver String() on it would panic)
+	if rv := reflect.ValueOf(val); rv.Kind() == reflect.Ptr && rv.IsNil() {
+		return ""
+	}
+
 	switch v := val.(type) {
 	case string:
 		return v
